@@ -146,6 +146,7 @@ impl Prop for C02 {
             let mut p = p.clone();
             p.commit = CommitSched::Random(1, 5);
             p.p_clear = (1, 6);
+            p.p_park_commit = (1, 8);
             p.p_mine = (1, 3);
             p.blocks = (6, 20);
             let mut g = Gen::new(rng.derive("workload"), &p);
@@ -241,8 +242,15 @@ impl Prop for C02 {
                     }
                     results.push(rs.iter().map(|r| r.to_value()).collect());
                     let ok = rs.first().map(|r| r.is_ok()).unwrap_or(false);
-                    if ok && restart_after_sync.get(k).cloned().unwrap_or(false) && !(open_before && matches!(op, Op::Commit)) {
+                    if ok && restart_after_sync.get(k).cloned().unwrap_or(false) {
+                        // an accepted commit with a block "open" means that nothing had been accepted into it (parked
+                        // transactions only): they are durable now, and the bookkeeping of the next calls stays as it is
+                        let keep_open = if open_before && matches!(op, Op::Commit) { w.open.clone() } else { None };
                         w.exec(i, &Op::Restart { commit_first: false });
+                        if keep_open.is_some() {
+                            w.open = keep_open;
+                            w.stats.bump("probe_replica_restarted_after_commit_of_parked_only_block");
+                        }
                         w.stats.bump("probe_replica_restarted_after_sync_point");
                     }
                 }
